@@ -13,6 +13,8 @@ Profiles (one per property that uses this oracle):
   eval    plain + evaluate_function (functions of the story with arguments, unknown names)  -> C16
   observe plain + observe_variable / remove_variable_observer; the notifications of every call are compared   -> C11
   slices  continues replaced by time-limited continues (step budgets), guarded calls in between               -> C08
+  exhaustive  EVERY sequence of 2 (quick) / 3 (thorough) calls over an alphabet of valid and invalid forms of every kind
+          of call, on a few programs, framed by turns                                                                   -> C09
   externs plain play, line by line, of programs whose external functions are bound (look-ahead safe or not):
           the calls the host receives during every continue - function, arguments, order, and WHEN - are compared     -> C12
 A mismatch is attributed to the property of the profile only from the first call of the profile's own kind on;
@@ -27,9 +29,9 @@ import gen_ast
 import lib
 
 SPECIAL = {"save": {"save", "load"}, "flows": {"switch_flow", "switch_default", "remove_flow"}, "reset": {"reset"},
-           "eval": {"eval_fn"}, "observe": {"observe", "remove_observer"}, "slices": {"cont_async"}, "refuse": None, "plain": None, "externs": None, "mixed": None}
+           "eval": {"eval_fn"}, "observe": {"observe", "remove_observer"}, "slices": {"cont_async"}, "refuse": None, "plain": None, "externs": None, "mixed": None, "exhaustive": None}
 OWNER = {"save": "C02", "flows": "C10", "reset": "C17", "refuse": "C09", "plain": "C01", "eval": "C16", "observe": "C11",
-         "slices": "C08", "externs": "C12", "mixed": "C09"}
+         "slices": "C08", "externs": "C12", "mixed": "C09", "exhaustive": "C09"}
 
 
 def chars(s):
@@ -145,6 +147,41 @@ def history(rnd, prog, profile, length):
     return ops
 
 
+def alphabet(prog):
+    """the calls of the exhaustive small-scope histories: valid and invalid forms of every kind of call"""
+    knots = [k for k, v in prog["prog"]["knots"].items() if v["kind"] == "knot"]
+    ints = [g["n"] for g in prog["prog"]["globals"] if g["v"]["t"] == "int"]
+    funcs = [(k, len(v["params"])) for k, v in prog["prog"]["knots"].items() if v["kind"] == "function"]
+    k1 = knots[1] if len(knots) > 1 else knots[0]
+    ops = [[{"op": "cont"}], [{"op": "turn"}], [{"op": "choose", "i": 0}], [{"op": "choose", "i": 1}], [{"op": "choose", "i": 9}],
+           [{"op": "set_var", "name": ints[0] if ints else "nosuch", "value": {"t": "int", "v": 5}}],
+           [{"op": "set_var", "name": "nosuch", "value": {"t": "int", "v": 1}}],
+           [{"op": "choose_path", "path": k1, "reset": True}], [{"op": "choose_path", "path": k1, "reset": False}],
+           [{"op": "choose_path", "path": "nosuch", "reset": True}],
+           [{"op": "switch_flow", "name": "f1"}], [{"op": "switch_default"}], [{"op": "remove_flow", "name": "f1"}],
+           [{"op": "save", "slot": "a"}], [{"op": "load", "slot": "a"}], [{"op": "load", "slot": "never"}], [{"op": "reset"}]]
+    if funcs:
+        f, n = funcs[0]
+        ops.append([{"op": "eval_fn", "name": f, "args": [{"t": "int", "v": 1}] * n}])
+    ops.append([{"op": "eval_fn", "name": "nosuch", "args": []}])
+    return ops
+
+
+def exhaustive_histories(prog, depth):
+    """every sequence of `depth` calls of the alphabet, each after a first turn and followed by a turn (so that what the
+    sequence did to the story shows)"""
+    import itertools
+    al = alphabet(prog)
+    out = []
+    for combo in itertools.product(range(len(al)), repeat=depth):
+        ops = [{"op": "new"}, {"op": "turn"}]
+        for i in combo:
+            ops += [dict(o) for o in al[i]]
+        ops += [{"op": "turn"}, {"op": "choose", "i": 0}, {"op": "turn"}]
+        out.append(ops)
+    return out
+
+
 def run(profile, tier, seed, nprog=None, nhist=None, length=None, name=None):
     """returns (mismatches attributed to the profile's property, handed-over mismatches, stats)"""
     from props import c01
@@ -161,9 +198,11 @@ def run(profile, tier, seed, nprog=None, nhist=None, length=None, name=None):
     progs = [gen_ast.generate(seed * 7000003 + i + 31 * sum(map(ord, profile)), c01.DEFAULT, knots=2 + i % 3,
                               focus=focus if i % 2 else None) for i in range(nprog)]
     scs, meta = [], {}
+    if profile == "exhaustive":
+        progs = progs[:2]
     for pi, p in enumerate(progs):
-        for hi in range(nhist):
-            ops = history(rnd, p, profile, length)
+        hs = exhaustive_histories(p, 2 if quick else 3) if profile == "exhaustive" else [history(rnd, p, profile, length) for _ in range(nhist)]
+        for hi, ops in enumerate(hs):
             key = "%s-%d/%d" % (profile, p["seed"], hi)
             meta[key] = (p, ops)
             # (external functions are bound before the first call of the history)
@@ -266,7 +305,7 @@ def run(profile, tier, seed, nprog=None, nhist=None, length=None, name=None):
                            notes=c["ops"][m["op_index"] - 1]["notes"], finished=c["ops"][m["op_index"] - 1]["finished"])
         before = c["ops"][:m["op_index"]]
         if special is None:
-            mine = profile in ("plain", "externs") or any(o["res"] == "err" for o in before)
+            mine = profile in ("plain", "externs", "exhaustive") or any(o["res"] == "err" for o in before)
         else:
             # (for the reset profile a path jump WITH call-stack reset is a call of the profile's kind, too)
             mine = any(o["op"] in special or (profile == "reset" and o["op"] == "choose_path" and o["reset"]) for o in before)
